@@ -230,7 +230,7 @@ structure Config where
 def Cidr.isLoopback (c : Cidr) : Bool :=
   if c.v6 then
     (if c.addr / 2 ^ 32 == 0xffff then c.addr / 2 ^ 24 % 256 == 127 else c.addr == 1)
-  else c.addr / 2 ^ 24 % 256 == 127
+  else c.addr / 2 ^ 24 == 127     -- first octet (addresses are below 2^32)
 
 structure NetRange where
   isWildcard  : Bool
